@@ -483,7 +483,20 @@ func (in *Interp) fpBits(f *Term) *Term {
 		return v
 	}
 	v := in.newVar(in.freshName(fmt.Sprintf("fpbits%d", f.sort.W)), BV(f.sort.W)) // width in the name: the same name must not be declared with two sorts
-	in.addPCNoEval(in.tt.Eq(in.tt.BitsToFP(v), f))
+	c := in.tt.Eq(in.tt.BitsToFP(v), f)
+	if bits, ok := in.evalModel(f); ok {
+		// keep the current model alive: extend it (copy: the map may be
+		// shared with queued forks) with the bits f has under it
+		m := make(map[string]uint64, len(in.model)+1)
+		for k, x := range in.model {
+			m[k] = x
+		}
+		m[v.name] = bits
+		in.model = m
+		in.addPC(c)
+	} else {
+		in.addPCNoEval(c)
+	}
 	if in.fpBitsMemo == nil {
 		in.fpBitsMemo = map[*Term]*Term{}
 	}
